@@ -1,0 +1,194 @@
+// Copyright 2023 The Go Authors. All rights reserved.
+// Use of this source code is governed by a BSD-style
+// license that can be found in the LICENSE file.
+
+//go:build verif && (!goexperiment.jsonv2 || !go1.25)
+
+package jsontext
+
+// Contracts for state.go: stateEntry bit fields and the stateMachine
+// push-down automaton.
+
+// ---------------------------------------------------------------- stateEntry
+//
+// View of a stateEntry: bit 63 = object, bit 62 = namespace disabled,
+// bit 61 = namespace invalid, bits 0..60 = element count.
+
+//@ spec seObj
+func seObj(e stateEntry) bool { return e>>63 == 1 }
+
+//@ spec seDisabled
+func seDisabled(e stateEntry) bool { return (e>>62)&1 == 1 }
+
+//@ spec seInvalid
+func seInvalid(e stateEntry) bool { return (e>>61)&1 == 1 }
+
+//@ spec seCount
+func seCount(e stateEntry) uint64 { return uint64(e) % (1 << 61) }
+
+//@ func (stateEntry).Length
+//@ inline
+//@ property C01 C06 C16 C20
+//@ ensures result == int64(seCount(e))
+
+//@ func (stateEntry).isObject
+//@ inline
+//@ property C01 C06 C20
+//@ ensures result == seObj(e)
+
+//@ func (stateEntry).isArray
+//@ inline
+//@ property C01 C06 C20
+//@ ensures result == !seObj(e)
+
+//@ func (stateEntry).NeedObjectName
+//@ inline
+//@ property C01 C06 C20
+//@ ensures result == (seObj(e) && seCount(e)%2 == 0)
+
+//@ func (stateEntry).needObjectValue
+//@ inline
+//@ property C01 C06 C20
+//@ ensures result == (seObj(e) && seCount(e)%2 == 1)
+
+//@ func (stateEntry).needImplicitColon
+//@ inline
+//@ property C01 C06 C20
+//@ ensures result == (seObj(e) && seCount(e)%2 == 1)
+
+//@ func (stateEntry).needImplicitComma
+//@ inline
+//@ property C01 C06 C20
+//@ ensures result == (!(seObj(e) && seCount(e)%2 == 1) && seCount(e) > 0 && next != '}' && next != ']')
+
+//@ func (*stateEntry).Increment
+//@ inline
+//@ property C01 C06 C08 C20
+//@ requires e != nil && seCount(*e) < 1<<61-1
+//@ modifies *e
+//@ ensures count: seCount(*e) == seCount(old(*e))+1
+//@ ensures bits: seObj(*e) == seObj(old(*e)) && seDisabled(*e) == seDisabled(old(*e)) && seInvalid(*e) == seInvalid(old(*e))
+
+//@ func (*stateEntry).decrement
+//@ inline
+//@ property C06 C08 C20
+//@ requires e != nil && seCount(*e) > 0
+//@ modifies *e
+//@ ensures count: seCount(*e) == seCount(old(*e))-1
+//@ ensures bits: seObj(*e) == seObj(old(*e)) && seDisabled(*e) == seDisabled(old(*e)) && seInvalid(*e) == seInvalid(old(*e))
+
+//@ func (*stateEntry).DisableNamespace
+//@ inline
+//@ property C08 C20
+//@ requires e != nil
+//@ modifies *e
+//@ ensures set: seDisabled(*e)
+//@ ensures rest: seObj(*e) == seObj(old(*e)) && seInvalid(*e) == seInvalid(old(*e)) && seCount(*e) == seCount(old(*e))
+
+//@ func (stateEntry).isActiveNamespace
+//@ inline
+//@ property C08 C20
+//@ ensures result == !seDisabled(e)
+
+//@ func (*stateEntry).invalidateNamespace
+//@ inline
+//@ property C08 C20
+//@ requires e != nil
+//@ modifies *e
+//@ ensures set: seInvalid(*e)
+//@ ensures rest: seObj(*e) == seObj(old(*e)) && seDisabled(*e) == seDisabled(old(*e)) && seCount(*e) == seCount(old(*e))
+
+//@ func (stateEntry).isValidNamespace
+//@ inline
+//@ property C01 C06 C08 C20
+//@ ensures result == !seInvalid(e)
+
+// ---------------------------------------------------------------- stateMachine
+//
+// View: the stack of entries Stack ++ [Last]; entry 0 is the virtual top-level
+// array. Representation invariant smInv: the bottom entry is an array, i.e. an
+// object on top implies a non-empty Stack (so popObject can index it).
+
+//@ spec smInv
+func smInv(stack []stateEntry, last stateEntry) bool {
+	return (len(stack) > 0 || !seObj(last)) && seCount(last) < 1<<61-1 && len(stack) <= maxNestingDepth
+}
+
+//@ func (*stateMachine).appendLiteral
+//@ property C01 C06 C20
+//@ requires m != nil && smInv(m.Stack, m.Last)
+//@ modifies m.Last
+//@ ensures ok-iff: (result == nil) == (!old(m.Last).NeedObjectName() && old(m.Last).isValidNamespace())
+//@ ensures name-err: old(m.Last).NeedObjectName() ==> result == ErrNonStringName
+//@ ensures ok-view: result == nil ==> m.Last == old(m.Last)+1
+//@ ensures fail-unchanged: result != nil ==> m.Last == old(m.Last)
+
+//@ func (*stateMachine).appendNumber
+//@ property C01 C06 C20
+//@ requires m != nil && smInv(m.Stack, m.Last)
+//@ modifies m.Last
+//@ ensures ok-iff: (result == nil) == (!old(m.Last).NeedObjectName() && old(m.Last).isValidNamespace())
+//@ ensures name-err: old(m.Last).NeedObjectName() ==> result == ErrNonStringName
+//@ ensures ok-view: result == nil ==> m.Last == old(m.Last)+1
+//@ ensures fail-unchanged: result != nil ==> m.Last == old(m.Last)
+
+//@ func (*stateMachine).appendString
+//@ property C01 C06 C20
+//@ requires m != nil && smInv(m.Stack, m.Last)
+//@ modifies m.Last
+//@ ensures ok-iff: (result == nil) == old(m.Last).isValidNamespace()
+//@ ensures ok-view: result == nil ==> m.Last == old(m.Last)+1
+//@ ensures fail-unchanged: result != nil ==> m.Last == old(m.Last)
+
+//@ func (*stateMachine).pushObject
+//@ property C01 C06 C20
+//@ requires m != nil && smInv(m.Stack, m.Last)
+//@ modifies m.Last, m.Stack, m.Stack[:cap(m.Stack)]
+//@ ensures ok-iff: (result == nil) == (!old(m.Last).NeedObjectName() && old(m.Last).isValidNamespace() && old(len(m.Stack)) < maxNestingDepth)
+//@ ensures maxdepth-iff: (result == errMaxDepth) == (!old(m.Last).NeedObjectName() && old(m.Last).isValidNamespace() && old(len(m.Stack)) == maxNestingDepth)
+//@ ensures name-err: old(m.Last).NeedObjectName() ==> result == ErrNonStringName
+//@ ensures fail-unchanged: result != nil ==> m.Last == old(m.Last) && len(m.Stack) == old(len(m.Stack)) && vForall(0, len(m.Stack), func(i int) bool { return m.Stack[i] == old(m.Stack[i]) })
+//@ ensures ok-view: result == nil ==> m.Last == stateTypeObject && len(m.Stack) == old(len(m.Stack))+1 && m.Stack[len(m.Stack)-1] == old(m.Last)+1
+//@ ensures ok-prefix: result == nil ==> vForall(0, old(len(m.Stack)), func(i int) bool { return m.Stack[i] == old(m.Stack[i]) })
+//@ ensures inv: smInv(m.Stack, m.Last)
+
+//@ func (*stateMachine).pushArray
+//@ property C01 C06 C20
+//@ requires m != nil && smInv(m.Stack, m.Last)
+//@ modifies m.Last, m.Stack, m.Stack[:cap(m.Stack)]
+//@ ensures ok-iff: (result == nil) == (!old(m.Last).NeedObjectName() && old(m.Last).isValidNamespace() && old(len(m.Stack)) < maxNestingDepth)
+//@ ensures maxdepth-iff: (result == errMaxDepth) == (!old(m.Last).NeedObjectName() && old(m.Last).isValidNamespace() && old(len(m.Stack)) == maxNestingDepth)
+//@ ensures name-err: old(m.Last).NeedObjectName() ==> result == ErrNonStringName
+//@ ensures fail-unchanged: result != nil ==> m.Last == old(m.Last) && len(m.Stack) == old(len(m.Stack)) && vForall(0, len(m.Stack), func(i int) bool { return m.Stack[i] == old(m.Stack[i]) })
+//@ ensures ok-view: result == nil ==> m.Last == stateTypeArray && len(m.Stack) == old(len(m.Stack))+1 && m.Stack[len(m.Stack)-1] == old(m.Last)+1
+//@ ensures ok-prefix: result == nil ==> vForall(0, old(len(m.Stack)), func(i int) bool { return m.Stack[i] == old(m.Stack[i]) })
+//@ ensures inv: smInv(m.Stack, m.Last)
+
+//@ func (*stateMachine).popObject
+//@ property C01 C06 C20
+//@ requires m != nil && smInv(m.Stack, m.Last)
+//@ modifies m.Last, m.Stack
+//@ ensures ok-iff: (result == nil) == (old(m.Last).isObject() && !old(m.Last).needObjectValue() && old(m.Last).isValidNamespace())
+//@ ensures fail-unchanged: result != nil ==> m.Last == old(m.Last) && len(m.Stack) == old(len(m.Stack))
+//@ ensures ok-view: result == nil ==> len(m.Stack) == old(len(m.Stack))-1 && m.Last == old(m.Stack[len(m.Stack)-1])
+//@ ensures elems: vForall(0, len(m.Stack), func(i int) bool { return m.Stack[i] == old(m.Stack[i]) })
+
+//@ func (*stateMachine).popArray
+//@ property C01 C06 C20
+//@ requires m != nil && smInv(m.Stack, m.Last)
+//@ modifies m.Last, m.Stack
+//@ ensures ok-iff: (result == nil) == (old(m.Last).isArray() && old(len(m.Stack)) > 0 && old(m.Last).isValidNamespace())
+//@ ensures fail-unchanged: result != nil ==> m.Last == old(m.Last) && len(m.Stack) == old(len(m.Stack))
+//@ ensures ok-view: result == nil ==> len(m.Stack) == old(len(m.Stack))-1 && m.Last == old(m.Stack[len(m.Stack)-1])
+//@ ensures elems: vForall(0, len(m.Stack), func(i int) bool { return m.Stack[i] == old(m.Stack[i]) })
+
+//@ func (stateMachine).Depth
+//@ inline
+//@ property C16 C20
+//@ ensures result == len(m.Stack)+1
+
+//@ func (stateMachine).needDelim
+//@ property C06 C20
+//@ ensures colon: (delim == ':') == (seObj(m.Last) && seCount(m.Last)%2 == 1)
+//@ ensures comma: (delim == ',') == (!(seObj(m.Last) && seCount(m.Last)%2 == 1) && seCount(m.Last) > 0 && next != '}' && next != ']' && len(m.Stack) != 0)
+//@ ensures values: delim == ':' || delim == ',' || delim == 0
